@@ -30,6 +30,14 @@ type scSpec struct {
 	Short     bool           `json:"short,omitempty"`     // replicas exit at once (survivors are not running when scaled)
 	LogLoc    bool           `json:"log_loc"`
 	ViaClient bool           `json:"via_client"`
+	// Restarting: the replicas exit with code 1 after a moment and are
+	// restarted (always) after a back-off, so that a scale-down finds replicas
+	// between two launches
+	Restarting bool `json:"restarting,omitempty"`
+	// Concurrent: after the sequence, two overlapping requests (the first one
+	// a scale-down of slow-to-die replicas)
+	Concurrent []int `json:"concurrent,omitempty"`
+	SigMs      int   `json:"sig_ms,omitempty"`
 }
 
 func (sp *scSpec) yaml(worldID, replicas int, dir string) string {
@@ -47,7 +55,18 @@ func (sp *scSpec) yaml(worldID, replicas int, dir string) string {
 	if sp.Short {
 		run = []int{1}
 	}
-	fmt.Fprintf(&b, "  sc:\n    command: %s\n", yq(sim.FormatCommand(sim.Script{W: worldID, RunMs: run, Out: []sim.Chunk{{Stream: "o", N: 3}}}, sp.CmdRest)))
+	scr := sim.Script{W: worldID, RunMs: run, Out: []sim.Chunk{{Stream: "o", N: 3}}}
+	if sp.SigMs > 0 {
+		scr.Sig = &sim.SigSpec{Ms: sp.SigMs}
+	}
+	if sp.Restarting {
+		scr.RunMs = []int{2}
+		scr.Exits = []int{1}
+	}
+	fmt.Fprintf(&b, "  sc:\n    command: %s\n", yq(sim.FormatCommand(scr, sp.CmdRest)))
+	if sp.Restarting {
+		b.WriteString("    availability:\n      restart: always\n      backoff_seconds: 3\n")
+	}
 	if sp.ProbeTpl != "" {
 		fmt.Fprintf(&b, "    liveness_probe:\n      exec:\n        command: %s\n      period_seconds: 60\n      initial_delay_seconds: 50\n", yq(sp.ProbeTpl))
 	}
@@ -117,6 +136,14 @@ func genScSpec(rng *rand.Rand, i int) scSpec {
 	}
 	sp.Short = i%5 == 2
 	sp.LogLoc = rng.Intn(4) == 0
+	if i%10 == 3 {
+		sp.Restarting = true
+	}
+	if i%10 == 8 && cur >= 2 {
+		// overlapping pair: a scale-down of slow-to-die replicas, then another request
+		sp.SigMs = 40 + rng.Intn(50)
+		sp.Concurrent = []int{1 + rng.Intn(cur-1), targets[rng.Intn(6)]}
+	}
 	return sp
 }
 
@@ -195,6 +222,25 @@ func runScale(c fw.Case) fw.Result {
 			return alive == n+1
 		})
 	}
+	// restarting mode: the replicas come and go; pace on launches per name
+	waitLaunched := func(names []string, base map[string]int) bool {
+		return w.WaitFor(5*time.Second, func(v *sim.WorldView) bool {
+			for _, n := range names {
+				if v.Launches(n) <= base[n] {
+					return false
+				}
+			}
+			return true
+		})
+	}
+	if sp.Restarting {
+		waitAlive = func(n int) bool { return true }
+		if !waitLaunched(scNames(sp.Initial), map[string]int{}) {
+			r.Inconclusive = "initial replicas did not come up"
+			r.Dirty = true
+			return r
+		}
+	}
 	if !waitAlive(sp.Initial) {
 		r.Inconclusive = "initial replicas did not come up"
 		r.Dirty = true
@@ -218,6 +264,10 @@ func runScale(c fw.Case) fw.Result {
 		if unknown[step] {
 			name = "nosuch"
 		}
+		base := map[string]int{}
+		for _, n := range append(append(scNames(1), scNames(9)...), append(scNames(99), scNames(101)...)...) {
+			base[n] = w.Launches(n)
+		}
 		var callErr error
 		callErr = env.Call("scale", name, target, func() error {
 			if api != nil {
@@ -235,6 +285,36 @@ func runScale(c fw.Case) fw.Result {
 		}
 		if want > cur {
 			expectLaunches += want - cur
+		}
+		retIdx := len(w.Events())
+		if sp.Restarting {
+			var addedNames []string
+			have := map[string]bool{}
+			for _, n := range scNames(cur) {
+				have[n] = true
+			}
+			for _, n := range scNames(want) {
+				if !have[n] {
+					addedNames = append(addedNames, n)
+				}
+			}
+			if !waitLaunched(addedNames, base) {
+				fail("added-replica-not-launched", "step %d (scale %d -> %d): not every added replica of %v was launched", step, cur, target, addedNames)
+				break
+			}
+			// several back-off periods: a removed replica must not come back
+			time.Sleep(60 * time.Millisecond)
+			wanted := map[string]bool{}
+			for _, n := range scNames(want) {
+				wanted[n] = true
+			}
+			for _, e := range w.Events()[retIdx:] {
+				if e.Kind == sim.EvLaunch && e.Proc != "by" && !wanted[e.Proc] {
+					fail("removed-replica-relaunched", "step %d (scale %d -> %d): %s is not one of the %d replicas any more but was launched again (seq %d) after the request had returned", step, cur, target, e.Proc, want, e.Seq)
+					break
+				}
+			}
+			r.Count("restarting_scale_steps", 1)
 		}
 		if !waitAlive(want) {
 			fail("replica-commands", "step %d: after scaling %s from %d to %d the number of live commands is %d, expected %d (+1 bystander)", step, name, cur, target, w.AliveCount()-1, want)
@@ -302,6 +382,13 @@ func runScale(c fw.Case) fw.Result {
 			}
 			if st, ok := states[n]; !ok || st.Name != n {
 				fail("replica-state", "step %d: no state listed for replica %s", step, n)
+			} else if !sp.Short && !sp.Restarting {
+				// its own state: the command of this replica is running and has
+				// never exited or been restarted
+				r.Count("replica_states_checked", 1)
+				if st.Status != types.ProcessStateRunning || st.ExitCode != 0 || st.Restarts != 0 || !st.IsRunning {
+					fail("replica-state-not-own", "step %d (scale %d -> %d): replica %s, whose only command is running, is reported as status=%s exit_code=%d restarts=%d is_running=%v", step, cur, target, n, st.Status, st.ExitCode, st.Restarts, st.IsRunning)
+				}
 			}
 		}
 		// events of this step
@@ -338,6 +425,13 @@ func runScale(c fw.Case) fw.Result {
 		} else {
 			removed = cur - want
 		}
+		if sp.Restarting {
+			cur = want
+			if len(r.Findings) > 0 {
+				break
+			}
+			continue
+		}
 		if launches != added {
 			fail("survivors-disturbed-or-not-launched", "step %d (scale %d -> %d): %d launches observed, expected %d (survivors must not be restarted, added replicas must be launched)", step, cur, target, launches, added)
 		}
@@ -350,6 +444,64 @@ func runScale(c fw.Case) fw.Result {
 		cur = want
 		if len(r.Findings) > 0 {
 			break
+		}
+	}
+	if len(sp.Concurrent) == 2 && len(r.Findings) == 0 && !sp.Short && !sp.Restarting && cur >= 2 {
+		a, b := sp.Concurrent[0], sp.Concurrent[1]
+		if a >= cur {
+			a = cur - 1
+		}
+		nameA := scNames(cur)[0]
+		errs := make(chan error, 2)
+		go func() {
+			errs <- env.Call("scale", nameA, a, func() error { return env.Runner.ScaleProcess(nameA, a) })
+		}()
+		// the second request arrives while the removed replicas of the first are still dying
+		w.WaitFor(2*time.Second, func(v *sim.WorldView) bool {
+			n := 0
+			for _, e := range v.Events() {
+				if e.Kind == sim.EvSignal && e.Proc != "by" {
+					n++
+				}
+			}
+			return n > 0
+		})
+		nameB := nameA
+		go func() {
+			errs <- env.Call("scale", nameB, b, func() error { return env.Runner.ScaleProcess(nameB, b) })
+		}()
+		e1, e2 := <-errs, <-errs
+		_ = e1
+		_ = e2
+		// whichever order the two requests took effect in, the outcome is the
+		// outcome of one of them (the second may fail if its name is gone)
+		ok := false
+		var listed []string
+		if states, err := env.States(); err == nil {
+			for nm := range states {
+				if nm != "by" {
+					listed = append(listed, nm)
+				}
+			}
+			sort.Strings(listed)
+			for _, n := range []int{b, a} {
+				wn := scNames(n)
+				sort.Strings(wn)
+				if n < 1 || strings.Join(listed, ",") != strings.Join(wn, ",") {
+					continue
+				}
+				ok = w.WaitFor(3*time.Second, func(v *sim.WorldView) bool { return v.AliveTotal() == n+1 })
+				for _, nm := range wn {
+					if info, err := env.Runner.GetProcessInfo(nm); err != nil || info.Replicas != n {
+						ok = false
+					}
+				}
+				break
+			}
+		}
+		r.Count("overlapping_scale_pairs", 1)
+		if !ok {
+			fail("overlapping-requests-outcome", "two overlapping scale requests (%d -> %d, then -> %d while the removed replicas were dying) left the replicas %v with %d live commands: neither the outcome of the first nor of the second request", cur, a, b, listed, w.AliveCount()-1)
 		}
 	}
 	_ = env.Call("shutdown", "", 0, func() error { return env.Runner.ShutDownProject() })
